@@ -125,7 +125,7 @@ def emit_base(u, ex, fnc2):
     ex["stream.create_ciphers"]["ret"] = "Result<(Aes128Cfb8Enc, Aes128Cfb8Dec), CryptoError>"
     u.add_fn(ex["stream.create_ciphers"], vxlib.FnContract("stream.create_ciphers", c5["fn"]["stream.create_ciphers"]), mode="external", indent="")
     u.raw("} // verus!\n")
-    u.raw(read_text("prelude.rs"))
+    u.raw(vxlib.with_includes(read_text("prelude.rs")))
     u.raw("verus! {\n")
     stream_read_varint(u)
     u.raw("pub mod connection {\n" + CONN_USES)
